@@ -223,6 +223,11 @@ type throttledConn struct {
 	totalLimiter, localLimiter *rate.Limiter
 }
 
+// CloseWrite forwards the half-close to the throttled connection.
+func (tc throttledConn) CloseWrite() error {
+	return layer4.CloseWrite(tc.Conn)
+}
+
 func (tc throttledConn) Read(p []byte) (int, error) {
 	// The rate limiters will not let us wait for more than their burst
 	// size, so the max we can read in each iteration is the minimum of
